@@ -511,34 +511,40 @@ func runC09R4(c *eng.Ctx, r *eng.RuleCtx) {
 		g := p.GraphOf(cf)
 		prm := convert.Type().(*types.Signature).Params().At(1)
 		verPrm := convert.Type().(*types.Signature).Params().At(0)
-		var loop *ast.RangeStmt
-		eng.InspectNoLit(cf.Decl.Body, func(n ast.Node) bool {
-			if rs, ok := n.(*ast.RangeStmt); ok && eng.SelObj(cinfo, rs.X) == prm {
-				loop = rs
-			}
-			return true
-		})
+		var el *eng.ElemLoop
+		for _, l := range elemLoopsOver(cinfo, cf.Decl.Body, func(x ast.Expr) bool { return eng.SelObj(cinfo, x) == prm }) {
+			el = l
+		}
 		ok := false
 		verOK := false
-		if loop != nil && loop.Key != nil && loop.Value != nil {
-			idx, elem := eng.SelObj(cinfo, loop.Key), eng.SelObj(cinfo, loop.Value)
+		if el != nil {
+			loop := el.Stmt
 			stores := func(n *eng.GNode) bool {
 				as, isA := n.Node.(*ast.AssignStmt)
 				if !isA || len(as.Lhs) != 1 {
 					return false
 				}
-				ix, isIx := ast.Unparen(as.Lhs[0]).(*ast.IndexExpr)
-				if !isIx || eng.SelObj(cinfo, ix.Index) != idx {
+				rhs := as.Rhs[0]
+				if ix, isIx := ast.Unparen(as.Lhs[0]).(*ast.IndexExpr); isIx {
+					// res[i] = elem.Map()
+					if !el.IsPos(ix.Index) {
+						return false
+					}
+				} else if ap := builtinCall(cinfo, rhs, "append"); ap != nil && len(ap.Args) == 2 && !ap.Ellipsis.IsValid() &&
+					eng.SelObj(cinfo, as.Lhs[0]) != nil && eng.SelObj(cinfo, as.Lhs[0]) == eng.SelObj(cinfo, ap.Args[0]) && appendTargetStartsEmpty(cinfo, cf, eng.SelObj(cinfo, as.Lhs[0])) {
+					// res = append(res, elem.Map()) into a slice created with length 0
+					rhs = ap.Args[1]
+				} else {
 					return false
 				}
-				cl, isC := ast.Unparen(as.Rhs[0]).(*ast.CallExpr)
+				cl, isC := ast.Unparen(rhs).(*ast.CallExpr)
 				if !isC || !isCallNamed(cinfo, cl, "Map") {
 					return false
 				}
 				s, isS := ast.Unparen(cl.Fun).(*ast.SelectorExpr)
-				return isS && eng.SelObj(cinfo, s.X) == elem
+				return isS && el.IsElem(s.X)
 			}
-			ok = eng.IsAscendingLoop(cinfo, loop) && loopNoEarlyExit(g, loop) && loopBodyMustPass(g, loop, stores)
+			ok = !el.Desc && loopNoEarlyExit(g, loop) && loopBodyMustPass(g, loop, stores)
 			setsVer := func(n *eng.GNode) bool {
 				as, isA := n.Node.(*ast.AssignStmt)
 				if !isA || len(as.Lhs) != 1 || eng.SelObj(cinfo, as.Rhs[0]) != verPrm {
@@ -552,4 +558,34 @@ func runC09R4(c *eng.Ctx, r *eng.RuleCtx) {
 		r.Check(ok, cf.Key+" one-element-per-context", cf.Decl.Pos(), "res[i] = contexts[i].Map() for every i ascending", "the rendered list does not have exactly one element per binding context in order (a slot of the pre-sized list can stay nil)")
 		r.Check(verOK, cf.Key+" version-applied", cf.Decl.Pos(), "every context is rendered in the requested config version", "a context can be rendered without the config version set (Map() then returns an empty object)")
 	}
+}
+
+// appendTargetStartsEmpty: v is a local whose only other assignment is its definition as an empty slice
+// (`make(T, 0[, n])`, `T{}`, `nil` / `var v T`).
+func appendTargetStartsEmpty(info *types.Info, f *eng.Func, v types.Object) bool {
+	lv, ok := v.(*types.Var)
+	if !ok || lv.IsField() {
+		return false
+	}
+	okDef := true
+	ndefs := 0
+	for _, e := range eng.AssignedExprs(info, f.Decl.Body, lv) {
+		if ap := builtinCall(info, e, "append"); ap != nil && len(ap.Args) >= 1 && eng.SelObj(info, ap.Args[0]) == v {
+			continue
+		}
+		ndefs++
+		if mk := builtinCall(info, e, "make"); mk != nil && len(mk.Args) >= 2 {
+			if n, isC := eng.ConstInt(info, mk.Args[1]); isC && n == 0 {
+				continue
+			}
+		}
+		if cl, isL := ast.Unparen(e).(*ast.CompositeLit); isL && len(cl.Elts) == 0 {
+			continue
+		}
+		if eng.IsNil(info, e) {
+			continue
+		}
+		okDef = false
+	}
+	return okDef && ndefs <= 1
 }
